@@ -578,6 +578,15 @@ def rule_L6(ctx):
                 resolved.append(" ".join(ast.unparse(v).split()))
         ok = sorted(resolved) == sorted([f"sanitize_container({zv})", "{k: container[k][" + iv + "] for k in zone_aux_attrib_names}"])
         if not ok and f"sanitize_container({zv})" in resolved and len(resolved) == 2:
+            # the same comprehension with another name for its variable
+            try:
+                dc_ = ast.parse([r for r in resolved if r != f"sanitize_container({zv})"][0], mode="eval").body
+            except SyntaxError:
+                dc_ = None
+            if isinstance(dc_, ast.DictComp) and len(dc_.generators) == 1 and isinstance(dc_.generators[0].target, ast.Name) and not dc_.generators[0].ifs:
+                v_ = dc_.generators[0].target.id
+                ok = norm(dc_.key) == v_ and norm(dc_.value) == f"container[{v_}][{iv}]" and norm(dc_.generators[0].iter) == "zone_aux_attrib_names" and v_ not in (iv, zv)
+        if not ok and f"sanitize_container({zv})" in resolved and len(resolved) == 2:
             # the auxiliary table written out: {'a': container['a'][i], 'b': container['b'][i], ...}, for exactly the names whose
             # list lengths were checked against the number of zones
             other = [r for r in resolved if r != f"sanitize_container({zv})"][0]
